@@ -120,7 +120,7 @@ def run(ctx, prog):
                         probs.append('reads mutable global `%s` at %s' % (q, loc))
                 for q, locs in tr.globals_written.items():
                     probs.append('writes global `%s` at %s' % (q, locs[0]))
-                for q, loc in tr.unknown_calls:
+                for q, loc in tr.lib_calls + tr.unknown_calls:
                     if q.split('::')[-1].split('<')[0] in BANNED:
                         probs.append('calls %s at %s' % (q, loc))
                 ctx.ob('C10.P3', key, not probs, f.where, '; '.join(probs[:3]), sample='%s: no static/global state, %d callees inlined' % (key, len(tr.inlined)),
